@@ -1,5 +1,6 @@
 import PhreeqcVerif.Model.Store
-/-! Helper lemmas for C14: the association-list model of `std::map<int, T>` is a lawful finite map. -/
+/-! Helper lemmas for C14: the association-list model of `std::map<int, T>` is a lawful finite map, and the copy
+loops of the keyword drivers have closed map-level forms. Core Lean only. -/
 namespace PhreeqcVerif.Store
 open AMap
 
@@ -38,4 +39,371 @@ theorem find_erase (m : AMap) (n x : Int) :
       by_cases hx : k = x
       · subst hx; simp [Ne.symm hk]
       · simp [hx]
+
+theorem find_mem {m : AMap} {n : Int} {e : Entry} (h : find m n = some e) : (n, e) ∈ m := by
+  induction m with
+  | nil => simp [find] at h
+  | cons p t ih =>
+    obtain ⟨k, v⟩ := p
+    simp only [find] at h
+    split at h
+    · rename_i hk; subst hk; simp at h; subst h; simp
+    · exact List.mem_cons_of_mem _ (ih h)
+
+theorem renum_renum (e : Entry) (i j : Int) : renum (renum e i) j = renum e j := rfl
+theorem renum_nUser (e : Entry) (j : Int) : { renum e j with nUser := j } = renum e j := rfl
+theorem renum_content (e : Entry) (j : Int) : (renum e j).content = e.content := rfl
+
+/-- `Rxn_copy` at map level -/
+theorem find_rxnCopy (m : AMap) (i j x : Int) :
+    find (rxnCopy m i j) x =
+      match find m i with
+      | some e => if j = x then some (renum e j) else find m x
+      | none => find m x := by
+  unfold rxnCopy
+  cases h : find m i with
+  | none => rfl
+  | some e => simp only [find_put]; rfl
+
+/-- the `Rxn_copy(b, n, i)` loop: targets n+1 … n+c receive the entry of n -/
+theorem find_eachLoop (m : AMap) (n : Int) (e : Entry) (h : find m n = some e) (c : Nat) (x : Int) :
+    find (eachLoop m n c) x = if n < x ∧ x ≤ n + c then some (renum e x) else find m x := by
+  induction c generalizing x with
+  | zero =>
+    have : ¬ (n < x ∧ x ≤ n + ((0 : Nat) : Int)) := by omega
+    rw [if_neg this]; rfl
+  | succ c ih =>
+    simp only [eachLoop, find_rxnCopy]
+    have hn : find (eachLoop m n c) n = some e := by
+      rw [ih, if_neg (by omega)]; exact h
+    rw [hn]
+    simp only
+    by_cases hx : n + (c : Int) + 1 = x
+    · subst hx
+      rw [if_pos rfl, if_pos (by omega)]
+    · rw [if_neg hx, ih]
+      by_cases h1 : n < x ∧ x ≤ n + (c : Int)
+      · rw [if_pos h1, if_pos (by omega)]
+      · rw [if_neg h1, if_neg (by omega)]
+
+/-- the chained loop of `Rxn_copies`: the same map-level meaning -/
+theorem find_copiesLoop (m : AMap) (n : Int) (e : Entry) (h : find m n = some e) (c : Nat) (x : Int) :
+    find (copiesLoop m n c) x = if n < x ∧ x ≤ n + c then some (renum e x) else find m x := by
+  induction c generalizing x with
+  | zero =>
+    have : ¬ (n < x ∧ x ≤ n + ((0 : Nat) : Int)) := by omega
+    rw [if_neg this]; rfl
+  | succ c ih =>
+    simp only [copiesLoop, find_rxnCopy]
+    have hn : ∃ e', find (copiesLoop m n c) (n + c) = some e' ∧ renum e' (n + c + 1) = renum e (n + c + 1) := by
+      rw [ih]
+      by_cases hc : (c : Int) = 0
+      · rw [if_neg (by omega)]
+        have : n + (c : Int) = n := by omega
+        rw [this]; exact ⟨e, h, rfl⟩
+      · rw [if_pos (by omega)]
+        exact ⟨_, rfl, rfl⟩
+    obtain ⟨e', he', hr⟩ := hn
+    rw [he']
+    simp only [hr]
+    by_cases hx : n + (c : Int) + 1 = x
+    · subst hx
+      rw [if_pos rfl, if_pos (by omega)]
+    · rw [if_neg hx, ih]
+      by_cases h1 : n < x ∧ x ≤ n + (c : Int)
+      · rw [if_pos h1, if_pos (by omega)]
+      · rw [if_neg h1, if_neg (by omega)]
+
+/-- map-level meaning of a fan-out of entry `n` over `n+1 … hi` -/
+def fanSpec (f : Int → Option Entry) (n hi : Int) : Int → Option Entry := fun x =>
+  match f n with
+  | some e => if n < x ∧ x ≤ hi then some (renum e x) else f x
+  | none => f x
+
+theorem find_rxnCopies (m : AMap) (n hi x : Int) : find (rxnCopies m n hi) x = fanSpec (find m) n hi x := by
+  unfold rxnCopies fanSpec
+  cases h : find m n with
+  | none => by_cases hle : hi ≤ n <;> simp [hle]
+  | some e =>
+    by_cases hle : hi ≤ n
+    · simp only [hle, if_true]
+      rw [if_neg (by omega)]
+    · simp only [hle, if_false]
+      rw [find_copiesLoop m n e h]
+      have : n + (((hi - n).toNat : Nat) : Int) = hi := by omega
+      rw [this]
+
+theorem eachLoop_none (m : AMap) (n : Int) (h : find m n = none) (c : Nat) : eachLoop m n c = m := by
+  induction c with
+  | zero => rfl
+  | succ c ih => simp [eachLoop, ih, rxnCopy, h]
+
+theorem find_copyEach (m : AMap) (n hi x : Int) : find (copyEach m n hi) x = fanSpec (find m) n hi x := by
+  unfold copyEach fanSpec
+  cases h : find m n with
+  | none =>
+    by_cases hle : hi ≤ n
+    · simp [hle]
+    · simp only [hle, if_false]; rw [eachLoop_none m n h]
+  | some e =>
+    by_cases hle : hi ≤ n
+    · simp only [hle, if_true]
+      rw [if_neg (by omega)]
+    · simp only [hle, if_false]
+      rw [find_eachLoop m n e h]
+      have : n + (((hi - n).toNat : Nat) : Int) = hi := by omega
+      rw [this]
+
+/-- map-level meaning of one COPY request -/
+def copyToSpec (f : Int → Option Entry) (src : Int) (ts : List Int) : Int → Option Entry := fun x =>
+  match f src with
+  | some e => if x ∈ ts ∧ x ≠ src then some (renum e x) else f x
+  | none => f x
+
+theorem find_copyToLoop (src : Int) (e : Entry) (ts : List Int) (m : AMap) (h : find m src = some e) (x : Int) :
+    find (copyToLoop m src ts) x = if x ∈ ts ∧ x ≠ src then some (renum e x) else find m x := by
+  induction ts generalizing m with
+  | nil => simp [copyToLoop]
+  | cons i t ih =>
+    simp only [copyToLoop]
+    by_cases his : i = src
+    · subst his
+      simp only [if_true]
+      rw [ih m h]
+      by_cases hx : x = i
+      · subst hx; simp
+      · simp [hx]
+    · simp only [his, if_false]
+      have h' : find (rxnCopy m src i) src = some e := by
+        rw [find_rxnCopy, h]; simp only; rw [if_neg his]
+      rw [ih _ h', find_rxnCopy, h]
+      simp only
+      by_cases hx : x = i
+      · subst hx
+        simp [his]
+      · have : ¬ i = x := fun h => hx h.symm
+        simp [hx, this]
+
+theorem find_copyTo (m : AMap) (src : Int) (ts : List Int) (x : Int) :
+    find (copyTo m src ts) x = copyToSpec (find m) src ts x := by
+  unfold copyTo copyToSpec
+  cases h : find m src with
+  | none => rfl
+  | some e => simp only; exact find_copyToLoop src e ts m h x
+
+
+/-! ### representation invariant: strictly ascending keys, and key = n_user (so DUMP prints the key) -/
+
+def Sorted (m : AMap) : Prop := m.Pairwise (fun p q => p.1 < q.1)
+def KeyOk (m : AMap) : Prop := ∀ p ∈ m, p.2.nUser = p.1
+
+theorem mem_ins {n : Int} {e : Entry} {m : AMap} {p : Int × Entry} (h : p ∈ ins n e m) : p = (n, e) ∨ p ∈ m := by
+  induction m with
+  | nil => simp [ins] at h; exact Or.inl h
+  | cons q t ih =>
+    obtain ⟨k, v⟩ := q
+    simp only [ins] at h
+    split at h
+    · simp at h; rcases h with h | h | h
+      · exact Or.inl h
+      · exact Or.inr (by simp [h])
+      · exact Or.inr (List.mem_cons_of_mem _ h)
+    · split at h
+      · simp at h; rcases h with h | h
+        · exact Or.inl h
+        · exact Or.inr (List.mem_cons_of_mem _ h)
+      · simp at h; rcases h with h | h
+        · exact Or.inr (by simp [h])
+        · rcases ih h with h | h
+          · exact Or.inl h
+          · exact Or.inr (List.mem_cons_of_mem _ h)
+
+theorem sorted_ins {m : AMap} (n : Int) (e : Entry) (h : Sorted m) : Sorted (ins n e m) := by
+  induction m with
+  | nil => simp [ins, Sorted]
+  | cons q t ih =>
+    obtain ⟨k, v⟩ := q
+    unfold Sorted at h
+    rw [List.pairwise_cons] at h
+    simp only [ins]
+    split
+    · rename_i hlt
+      unfold Sorted
+      rw [List.pairwise_cons]
+      refine ⟨?_, by rw [List.pairwise_cons]; exact h⟩
+      intro p hp
+      simp at hp
+      rcases hp with hp | hp
+      · subst hp; exact hlt
+      · exact Int.lt_trans hlt (h.1 p hp)
+    · split
+      · rename_i h1 h2
+        subst h2
+        unfold Sorted
+        rw [List.pairwise_cons]
+        exact ⟨h.1, h.2⟩
+      · rename_i h1 h2
+        unfold Sorted
+        rw [List.pairwise_cons]
+        refine ⟨?_, ih h.2⟩
+        intro p hp
+        rcases mem_ins hp with hp | hp
+        · subst hp; show k < n; omega
+        · exact h.1 p hp
+
+theorem sorted_put {m : AMap} (n : Int) (e : Entry) (h : Sorted m) : Sorted (m.put n e) := sorted_ins n _ h
+
+theorem sorted_erase {m : AMap} (n : Int) (h : Sorted m) : Sorted (m.erase n) := by
+  unfold Sorted AMap.erase at *
+  exact List.Pairwise.filter _ h
+
+theorem keyOk_put {m : AMap} (n : Int) (e : Entry) (h : KeyOk m) : KeyOk (m.put n e) := by
+  intro p hp
+  rcases mem_ins hp with hp | hp
+  · subst hp; rfl
+  · exact h p hp
+
+theorem keyOk_erase {m : AMap} (n : Int) (h : KeyOk m) : KeyOk (m.erase n) := by
+  intro p hp
+  exact h p (List.mem_filter.mp hp).1
+
+def Good (m : AMap) : Prop := Sorted m ∧ KeyOk m
+
+theorem good_put {m : AMap} (n : Int) (e : Entry) (h : Good m) : Good (m.put n e) := ⟨sorted_put n e h.1, keyOk_put n e h.2⟩
+theorem good_erase {m : AMap} (n : Int) (h : Good m) : Good (m.erase n) := ⟨sorted_erase n h.1, keyOk_erase n h.2⟩
+theorem good_nil : Good ([] : AMap) := ⟨List.Pairwise.nil, by intro p hp; cases hp⟩
+
+theorem good_rxnCopy {m : AMap} (i j : Int) (h : Good m) : Good (rxnCopy m i j) := by
+  unfold rxnCopy; split
+  · exact good_put _ _ h
+  · exact h
+
+theorem good_copiesLoop {m : AMap} (n : Int) (c : Nat) (h : Good m) : Good (copiesLoop m n c) := by
+  induction c with
+  | zero => exact h
+  | succ c ih => exact good_rxnCopy _ _ ih
+
+theorem good_eachLoop {m : AMap} (n : Int) (c : Nat) (h : Good m) : Good (eachLoop m n c) := by
+  induction c with
+  | zero => exact h
+  | succ c ih => exact good_rxnCopy _ _ ih
+
+theorem good_copyToLoop (src : Int) (ts : List Int) {m : AMap} (h : Good m) : Good (copyToLoop m src ts) := by
+  induction ts generalizing m with
+  | nil => exact h
+  | cons i t ih =>
+    simp only [copyToLoop]
+    split
+    · exact ih h
+    · exact ih (good_rxnCopy _ _ h)
+
+/-- every store operation keeps the representation invariant -/
+theorem good_onMap (op : SOp) {m : AMap} (h : Good m) : Good (op.onMap m) := by
+  cases op <;> simp only [SOp.onMap]
+  case put => exact good_put _ _ h
+  case setEnd => split <;> first | exact good_put _ _ h | exact h
+  case setNewDef => split <;> first | exact good_put _ _ h | exact h
+  case modify => split <;> first | exact good_put _ _ h | exact h
+  case copy => exact good_rxnCopy _ _ h
+  case copies =>
+    unfold rxnCopies
+    split
+    · exact h
+    · split
+      · exact h
+      · exact good_copiesLoop _ _ h
+  case copyEach =>
+    unfold Store.copyEach
+    split
+    · exact h
+    · exact good_eachLoop _ _ h
+  case copyTo =>
+    unfold Store.copyTo
+    split
+    · exact h
+    · exact good_copyToLoop _ _ h
+  case erase => exact good_erase _ h
+  case clear => exact good_nil
+
+/-- two good maps with the same lookups are the same list: the abstract view loses nothing -/
+theorem good_ext {m₁ m₂ : AMap} (h₁ : Sorted m₁) (h₂ : Sorted m₂) (h : ∀ x, find m₁ x = find m₂ x) : m₁ = m₂ := by
+  induction m₁ generalizing m₂ with
+  | nil =>
+    cases m₂ with
+    | nil => rfl
+    | cons q t => obtain ⟨k, v⟩ := q; have := h k; simp [find] at this
+  | cons p t ih =>
+    obtain ⟨k, v⟩ := p
+    cases m₂ with
+    | nil => have := h k; simp [find] at this
+    | cons q t' =>
+      obtain ⟨k', v'⟩ := q
+      unfold Sorted at h₁ h₂
+      rw [List.pairwise_cons] at h₁ h₂
+      have nf : ∀ (l : AMap) (a : Int), (∀ p ∈ l, a < p.1) → find l a = none := by
+        intro l a hl
+        induction l with
+        | nil => rfl
+        | cons r l ihl =>
+          obtain ⟨kr, vr⟩ := r
+          simp only [find]
+          have := hl (kr, vr) (by simp)
+          rw [if_neg (by simp at this; omega)]
+          exact ihl (fun p hp => hl p (List.mem_cons_of_mem _ hp))
+      have hk : k = k' := by
+        rcases Int.lt_trichotomy k k' with hlt | heq | hgt
+        · have h1 := h k
+          simp only [find, if_true] at h1
+          rw [if_neg (by omega)] at h1
+          rw [nf t' k (fun p hp => Int.lt_trans hlt (h₂.1 p hp))] at h1
+          cases h1
+        · exact heq
+        · have h1 := h k'
+          simp only [find, if_true] at h1
+          rw [if_neg (by omega)] at h1
+          rw [nf t k' (fun p hp => Int.lt_trans hgt (h₁.1 p hp))] at h1
+          cases h1
+      subst hk
+      have hv : v = v' := by
+        have h1 := h k
+        simp [find] at h1; exact h1
+      subst hv
+      congr 1
+      apply ih h₁.2 h₂.2
+      intro x
+      have h1 := h x
+      simp only [find] at h1
+      by_cases hx : k = x
+      · subst hx
+        rw [nf t k h₁.1, nf t' k h₂.1]
+      · rw [if_neg hx, if_neg hx] at h1; exact h1
+
+/-! ### tables indexed by kind -/
+
+theorem KTab.get_set {α} (t : KTab α) (k k' : Kind) (a : α) :
+    (t.set k a).get k' = if k' = k then a else t.get k' := by
+  cases k <;> cases k' <;> simp [KTab.set, KTab.get]
+
+theorem KTab.get_const {α} (a : α) (k : Kind) : (KTab.const a).get k = a := by
+  cases k <;> rfl
+
+theorem KTab.get_map {α β} (f : α → β) (t : KTab α) (k : Kind) : (t.map f).get k = f (t.get k) := by
+  cases k <;> rfl
+
+/-! ### the loop of copy_entities -/
+
+theorem mem_copyTargets_int (a b x : Int) :
+    (∃ ts, copyTargets false a b = some ts ∧ (x ∈ ts ↔ a ≤ x ∧ x ≤ b)) := by
+  unfold copyTargets
+  simp only [Bool.false_eq_true, if_false]
+  by_cases h : b < a
+  · refine ⟨[], by simp [h], ?_⟩
+    simp; omega
+  · refine ⟨_, by rw [if_neg h], ?_⟩
+    simp only [List.mem_map, List.mem_range]
+    constructor
+    · rintro ⟨t, ht, rfl⟩; omega
+    · intro hx
+      exact ⟨(x - a).toNat, by omega, by omega⟩
+
 end PhreeqcVerif.Store
